@@ -33,6 +33,11 @@ pub enum Goal {
     Calendar,
     MonthCode,
 }
+/// The full ISO date (with the hidden reference day / year) in a text written with the calendar annotation.
+fn full_date_of(text: &str) -> String {
+    text.split('[').next().unwrap_or("").to_string()
+}
+
 pub const GOALS: [Goal; 14] = [Goal::Date, Goal::DateTime, Goal::Time, Goal::YearMonth, Goal::MonthDay, Goal::Instant, Goal::Zoned, Goal::RelativeTo, Goal::Duration, Goal::Offset, Goal::TzId, Goal::TzStr, Goal::Calendar, Goal::MonthCode];
 
 fn known_calendar(id: &str) -> bool {
@@ -155,7 +160,8 @@ pub fn model(goal: Goal, s: &str) -> Verdict<String> {
                 if !ok {
                     return Verdict::Reject;
                 }
-                Verdict::Accept(format!("{y} {m}"))
+                // (the reference day of an ISO year-month is the first of the month, whatever day the string names)
+                Verdict::Accept(format!("{y} {m} full={}", tmc_ref::r8f::date_text(y, m, 1)))
             }
             Verdict::Reject => Verdict::Reject,
             Verdict::Unjudged(w) => Verdict::Unjudged(w),
@@ -181,7 +187,8 @@ pub fn model(goal: Goal, s: &str) -> Verdict<String> {
                         return Verdict::Unjudged("month-day from a date outside the date limits");
                     }
                 }
-                Verdict::Accept(format!("{m} {d}"))
+                // (the reference year of an ISO month-day is 1972, whatever year the string names)
+                Verdict::Accept(format!("{m} {d} full={}", tmc_ref::r8f::date_text(1972, m, d)))
             }
             Verdict::Reject => Verdict::Reject,
             Verdict::Unjudged(w) => Verdict::Unjudged(w),
@@ -363,8 +370,8 @@ pub fn implementation(goal: Goal, s: &str) -> Oc<String> {
             Ok(format!("{} {}", d.to_ixdtf_string(ToStringRoundingOptions::default(), DisplayCalendar::Never)?, d.calendar().identifier()))
         }),
         Goal::Time => call(|| PlainTime::from_str(s).map(|t| crate::conv::time_ns(&t).to_string())),
-        Goal::YearMonth => call(|| PlainYearMonth::from_str(s).map(|v| format!("{} {}", v.iso_year(), v.iso_month()))),
-        Goal::MonthDay => call(|| PlainMonthDay::from_str(s).map(|v| format!("{} {}", v.iso_month(), v.iso_day()))),
+        Goal::YearMonth => call(|| PlainYearMonth::from_str(s).map(|v| format!("{} {} full={}", v.iso_year(), v.iso_month(), full_date_of(&v.to_ixdtf_string(temporal_rs::options::DisplayCalendar::Always))))),
+        Goal::MonthDay => call(|| PlainMonthDay::from_str(s).map(|v| format!("{} {} full={}", v.iso_month(), v.iso_day(), full_date_of(&v.to_ixdtf_string(temporal_rs::options::DisplayCalendar::Always))))),
         Goal::Instant => call(|| Instant::from_str(s).map(|v| v.epoch_nanoseconds().as_i128().to_string())),
         Goal::Zoned => call(|| ZonedDateTime::from_str_with_provider(s, Disambiguation::Compatible, OffsetDisambiguation::Reject, &UtcProvider).map(|z| zoned_text(&z))),
         Goal::RelativeTo => call(|| {
